@@ -19,7 +19,7 @@ import (
 )
 
 func TestMain(m *testing.M) {
-	vh.Rule("rapid: histories of 1..6 request/response rounds on one channel (packet level, deterministic); per round a response from the grammar (empty of delivered packages, rows, several result sets with DONE(MORE), trailing DONE with COUNT/PROC/ERROR/INXACT bits, EED interleaved, final DONE by the server, a non-final DONE, or none), a packetisation, an optional request sent before it, and a consumer strategy: NextPackage until the final DONE, or NextPackageUntil with a per-package plan of callback results (continue, true, io.EOF, another error) or a nil callback. Oracle: a model holds the expected consumer view of every round; the consumer must see exactly that (one DONE with final status, last), a callback error must come back (errors.Is) with the queue empty afterwards, nothing may be left over or duplicated into the next round; a 2 s watchdog only fires if the final DONE is missing. Non-trivial: >= 2 rounds and (the previous round ended with a server DONE(FINAL), or the callback aborted early, or the response spans several packets); distinct by the history")
+	vh.Rule("rapid: histories of 1..6 request/response rounds on one channel (packet level, deterministic); per round a response from the grammar (empty of delivered packages, rows, several result sets with DONE(MORE), trailing DONE with COUNT/PROC/ERROR/INXACT bits, EED interleaved, final DONE by the server, a non-final DONE, or none), a packetisation, an optional request sent before it, and a consumer strategy: NextPackage until the final DONE, or NextPackageUntil with a per-package plan of callback results (continue, true, io.EOF, another error, an error that wraps io.EOF) or a nil callback. Oracle: a model holds the expected consumer view of every round; the consumer must see exactly that (one DONE with final status, last), a callback error must come back (errors.Is) with the queue empty afterwards, nothing may be left over or duplicated into the next round; a 2 s watchdog only fires if the final DONE is missing. Non-trivial: >= 2 rounds and (the previous round ended with a server DONE(FINAL), or the callback aborted early, or the response spans several packets); distinct by the history")
 	vh.Assume("a DONE-family package with status 0 only ends a response; all packets of a response are delivered before the consumer reads (the concurrent case is C12/C13); non-informational EED only between statements")
 	vh.Main(m, "C03")
 }
@@ -28,7 +28,7 @@ type round struct {
 	Pkgs     []rc.P `json:"pkgs"`
 	Cuts     []int  `json:"cuts"`
 	Strategy string `json:"strategy"` // next | until | nilcb
-	Plan     []int  `json:"plan"`     // per callback invocation: 0 continue, 1 true, 2 io.EOF, 3 error
+	Plan     []int  `json:"plan"`     // per callback invocation: 0 continue, 1 true, 2 io.EOF, 3 error, 4 error wrapping io.EOF
 	Send     bool   `json:"send_before"`
 }
 
@@ -129,6 +129,7 @@ func runCase(c c03Case) (f *vh.Failure) {
 			}
 		case "until", "nilcb":
 			calls := 0
+			lastAct := 0
 			var cb func(tds.Package) (bool, error)
 			if r.Strategy == "until" {
 				cb = func(p tds.Package) (bool, error) {
@@ -138,6 +139,7 @@ func runCase(c c03Case) (f *vh.Failure) {
 						act = r.Plan[calls]
 					}
 					calls++
+					lastAct = act
 					if isFinal(p) {
 						gotFinal = true
 					}
@@ -148,6 +150,10 @@ func runCase(c c03Case) (f *vh.Failure) {
 						return false, io.EOF
 					case 3:
 						return false, errCB
+					case 4:
+						// an error that merely wraps io.EOF is not "an unwrapped io.EOF": the rest
+						// of the response has to be consumed like for any other error
+						return false, fmt.Errorf("%w (and the consumer's own failure: %w)", errCB, io.EOF)
 					}
 					if isFinal(p) {
 						return true, nil // the consumer's own end condition
@@ -156,7 +162,12 @@ func runCase(c c03Case) (f *vh.Failure) {
 				}
 			}
 			for !gotFinal && !aborted {
+				lastAct = 0
 				_, err := ch.NextPackageUntil(wctx, false, cb)
+				if (lastAct == 3 || lastAct == 4) && !errors.Is(err, errCB) {
+					wcancel()
+					return vh.Failf("C03/callback-error-not-returned", "%s: the callback failed (plan action %d) but NextPackageUntil returned %v", where, lastAct, err)
+				}
 				switch {
 				case err == nil:
 					if r.Strategy == "nilcb" {
@@ -258,7 +269,7 @@ func genRound(rt *rapid.T) round {
 	if r.Strategy == "until" {
 		n := rapid.IntRange(0, 8).Draw(rt, "planlen")
 		for i := 0; i < n; i++ {
-			r.Plan = append(r.Plan, rapid.SampledFrom([]int{0, 0, 0, 1, 2, 3}).Draw(rt, "act"))
+			r.Plan = append(r.Plan, rapid.SampledFrom([]int{0, 0, 0, 1, 2, 3, 4}).Draw(rt, "act"))
 		}
 	}
 	return r
@@ -299,7 +310,7 @@ func TestShapePairsExhaustive(t *testing.T) {
 		{{Msg: &rc.Msg{ID: 3}}},
 		{{RetStat: &i32}, done(rc.DoneMore), {Msg: &rc.Msg{ID: 4}}, done(rc.DoneFinal), env},
 	}
-	strategies := []round{{Strategy: "next"}, {Strategy: "until"}, {Strategy: "until", Plan: []int{3}}, {Strategy: "until", Plan: []int{0, 2, 1}}, {Strategy: "nilcb"}}
+	strategies := []round{{Strategy: "next"}, {Strategy: "until"}, {Strategy: "until", Plan: []int{3}}, {Strategy: "until", Plan: []int{0, 2, 1}}, {Strategy: "until", Plan: []int{4}}, {Strategy: "nilcb"}}
 	for _, a := range shapes {
 		for _, b := range shapes {
 			for _, c3 := range shapes {
@@ -315,5 +326,5 @@ func TestShapePairsExhaustive(t *testing.T) {
 			}
 		}
 	}
-	e.Done("all ordered triples of 7 response shapes x 5x5 consumer strategies")
+	e.Done("all ordered triples of 7 response shapes x 6x6 consumer strategies")
 }
